@@ -29,6 +29,7 @@ DESIGN.md section 5, C13.
 """
 import array
 import collections
+import os
 import random
 import threading
 import time
@@ -811,7 +812,12 @@ class _RealReader:
                 out['got'] = _drain(rx, lens, rform)
             except BaseException as exc:      # noqa
                 out['got'] = ('reader-crashed', repr(exc))
+            finally:
+                with cv:
+                    state['reader_done'] = True
+                    cv.notify_all()
         vos._real['read'] = read
+        os.set_blocking(wfd, False)
         t = threading.Thread(target=reader, daemon=True)
         try:
             t.start()
@@ -821,13 +827,21 @@ class _RealReader:
                 todo.append(len(stream) - sum(todo))
             for p in todo:
                 piece = stream[pos:pos + p]
-                while piece:
-                    n = vos._real['write'](wfd, piece)
+                while piece and not state.get('reader_done'):
+                    # never block in the kernel: a reader that gave up
+                    # would leave this thread stuck on a full pipe
+                    try:
+                        n = vos._real['write'](wfd, piece)
+                    except BlockingIOError:
+                        with cv:
+                            cv.wait(0.02)
+                        continue
                     piece = piece[n:]
                 pos += p
                 with cv:
                     ok = cv.wait_for(
-                        lambda: state['consumed'] >= pos or not t.is_alive(),
+                        lambda: state['consumed'] >= pos or
+                        state.get('reader_done') or not t.is_alive(),
                         timeout=300)
                 if not ok:
                     raise HarnessError('real reader did not consume %d bytes'
